@@ -1,6 +1,7 @@
 (* C13/Harness.v — comparison of the model with what the Go harnesses recorded from the
    implementation (cases evaluated with vm_compute in work/C13/Cases_k.v).  Imports Model only. *)
 From Verif Require Export Common.Base C13.Model.
+From Verif Require Import Generated.C13CfgSchema.
 From Coq Require Import String.
 
 Definition path_eqb (a b : path) : bool := list_eqb String.eqb a b.
@@ -46,6 +47,22 @@ Definition pick_ok (cs : list verr) (r : option verr) : bool :=
   | Some e => existsb (verr_eqb e) cs
   end.
 
+Definition find_at {E} (p : path) (l : list (path * E)) : option E :=
+  option_map snd (find (fun pe => path_eqb (fst pe) p) l).
+
+Fixpoint tv_eqb (a b : tv) {struct a} : bool :=
+  match a, b with
+  | VSc x, VSc y => String.eqb x y
+  | VRec fa, VRec fb =>
+      (fix go (fa fb : list (string * tv)) : bool :=
+         match fa, fb with
+         | [], [] => true
+         | (k, x) :: ra, (k', y) :: rb => String.eqb k k' && tv_eqb x y && go ra rb
+         | _, _ => false
+         end) fa fb
+  | _, _ => false
+  end.
+
 Inductive vcase : Type :=
 (* xconfmap.Validate on a synthetic value: the tree as reflect sees it (verdicts = what each
    node's Validate returns), and the flattened error list returned.  [ordered] = the value has
@@ -55,7 +72,14 @@ Inductive vcase : Type :=
    and the flattened result of xconfmap.Validate(cfg) *)
 | CCfg (g : gates) (c : topcfg) (obs_cfg obs_pipes : option verr) (obs_all : list (path * verr))
 (* PipelineConfig.Validate alone *)
-| CPipe (p : pipe) (obs : option verr).
+| CPipe (p : pipe) (obs : option verr)
+(* the full loader on a configuration whose section for the schema entry [name] is [v]; observed:
+   the (path relative to the entry, key) pairs of the "has invalid keys" reports ([] = no such
+   report).  [paths] = false: only the keys are compared (several insertions). *)
+| CDec (paths : bool) (name : string) (v : cv) (obs : list (path * string))
+(* the full loader on the section [m] (canonical scalar values) of component [name] whose factory
+   defaults are [d]; observed: the typed configuration after the load, same projection as [d] *)
+| CFaith (name : string) (d : tv) (m : cv) (obs : tv).
 
 Definition check_case (c : vcase) : bool :=
   match c with
@@ -63,20 +87,38 @@ Definition check_case (c : vcase) : bool :=
       if ordered then list_eqb (pe_eqb String.eqb) (walk t) obs
       else perm_eqb (pe_eqb String.eqb) (walk t) obs
   | CCfg g c oc op oall =>
+      (* the two first-error-over-a-map functions are called once directly (oc, op) and once more
+         inside xconfmap.Validate, where they may pick another candidate: read that pick off the
+         observed list (nondeterminism resolved by observation, then validated) *)
+      let r := find_at [] oall in
+      let pv := find_at ["service"; "pipelines"]%string oall in
       pick_ok (cfg_candidates g c) oc && pick_ok (pipes_candidates g c) op &&
-      perm_eqb (pe_eqb verr_eqb) (walk (tree_of oc op c)) oall
+      pick_ok (cfg_candidates g c) r && pick_ok (pipes_candidates g c) pv &&
+      perm_eqb (pe_eqb verr_eqb) (walk (tree_of r pv c)) oall
   | CPipe p obs => option_eqb verr_eqb (pipe_shape_err p) obs
+  | CDec paths name v obs =>
+      match lookup name schema with
+      | Some t =>
+          if paths then perm_eqb (pe_eqb String.eqb) (unused t v) obs
+          else perm_eqb String.eqb (map snd (unused t v)) (map snd obs)
+      | None => false
+      end
+  | CFaith name d m obs => tv_eqb (decode_model name d m) obs
   end.
 
 (* model outputs, for replay files *)
 Inductive vout : Type :=
 | OWalk (l : list (path * string))
 | OCfg (cands pcands : list verr) (det : list (path * verr))
-| OPipe (e : option verr).
+| OPipe (e : option verr)
+| ODec (l : option (list (path * string)))
+| OFaith (v : tv).
 
 Definition model_out (c : vcase) : vout :=
   match c with
   | CWalk _ t _ => OWalk (walk t)
   | CCfg g c _ _ _ => OCfg (cfg_candidates g c) (pipes_candidates g c) (full_validate g c)
   | CPipe p _ => OPipe (pipe_shape_err p)
+  | CDec _ name v _ => ODec (option_map (fun t => unused t v) (lookup name schema))
+  | CFaith name d m _ => OFaith (decode_model name d m)
   end.
